@@ -155,7 +155,7 @@ func (rn *runner) runHistory(idx int, worker int, v cfgVariant, replay []step) {
 		h = genHistory(r, u, c.Pick(60, 100))
 	}
 	dir := filepath.Join(c.Scratch, fmt.Sprintf("h%d", idx))
-	extra := map[string][]string{"data": {`write-cold-duration = "1h"`}}
+	extra := map[string][]string{"data.memtable": {`write-cold-duration = "1h"`, `force-snapShot-duration = "1h"`}}
 	for k, ls := range v.Extra {
 		extra[k] = append(extra[k], ls...)
 	}
